@@ -40,7 +40,7 @@ pub struct Batch {
 // --------------------------------------------------------------------------
 // fixed configuration of the server under test
 
-const ZONE_TEST: &str = "$ORIGIN test.\n@ IN SOA ns.test. admin.test. 1 3600 600 86400 60\n@ 300 IN NS ns\nns 300 IN A 192.0.2.53\nsentinel 300 IN TXT \"sentinel\"\nwww 300 IN A 192.0.2.1\nwww 300 IN A 192.0.2.2\nwww 300 IN AAAA 2001:db8::1\nalias 300 IN CNAME www\nalias2 300 IN CNAME alias\nout 300 IN CNAME www.other.invalid.\nloop1 300 IN CNAME loop2\nloop2 300 IN CNAME loop1\n*.wild 300 IN A 192.0.2.9\nent.deep.down 300 IN TXT \"below empty non-terminals\"\nsub 300 IN NS ns.sub\nmail 300 IN MX 10 www\nsrv 300 IN SRV 1 2 3 www\n";
+const ZONE_TEST: &str = "$ORIGIN test.\n@ IN SOA ns.test. admin.test. 1 3600 600 86400 60\n@ 300 IN NS ns\nns 300 IN A 192.0.2.53\nsentinel 300 IN TXT \"sentinel\"\nwww 300 IN A 192.0.2.1\nwww 300 IN A 192.0.2.2\nwww 300 IN AAAA 2001:db8::1\nalias 300 IN CNAME www\nalias2 300 IN CNAME alias\nout 300 IN CNAME www.other.invalid.\nloop1 300 IN CNAME loop2\nloop2 300 IN CNAME loop1\n*.wild 300 IN A 192.0.2.9\n*.wcn 300 IN CNAME www\nent.deep.down 300 IN TXT \"below empty non-terminals\"\nsub 300 IN NS ns.sub\nmail 300 IN MX 10 www\nsrv 300 IN SRV 1 2 3 www\n";
 
 fn zone_files() -> Vec<(String, String)> {
     let mut big = String::from("$ORIGIN big.test.\n@ IN SOA ns.test. admin.test. 1 3600 600 86400 60\n");
@@ -59,8 +59,8 @@ fn zone_files() -> Vec<(String, String)> {
 
 const HOSTS: &str = "0.0.0.0 blocked.example\n:: blocked.example\n10.9.8.7 printer.lan\n";
 
-pub const QUESTION_NAMES: [&str; 26] = [
-    "test.", "www.test.", "alias.test.", "alias2.test.", "out.test.", "loop1.test.", "x.wild.test.", "a.b.wild.test.", "wild.test.", "deep.down.test.",
+pub const QUESTION_NAMES: [&str; 28] = [
+    "test.", "www.test.", "alias.test.", "alias2.test.", "out.test.", "loop1.test.", "x.wild.test.", "a.b.wild.test.", "wild.test.", "x.wcn.test.", "a.b.wcn.test.", "deep.down.test.",
     "down.test.", "sub.test.", "x.sub.test.", "mail.test.", "srv.test.", "nope.test.", "medium.big.test.", "large.big.test.", "huge.big.test.", "big.test.",
     "a.plain.", "b.plain.", "zzz.plain.", "blocked.example.", "printer.lan.", "unknown.invalid.",
 ];
@@ -859,7 +859,7 @@ pub fn def() -> PropertyDef {
     PropertyDef {
         id: "C09",
         level: "exploration",
-        rule: "authoritative-only: one running `resolved --authoritative-only` (shipped binary, guard off) with fixed zone and hosts files (authoritative zone with aliases, alias loop, wildcard, empty non-terminals, delegation, RRsets of 1 KB, 12 KB and 75 KB; a non-authoritative zone; hosts entries). A case is a batch of 1..16 messages interleaved over one UDP socket and separate TCP connections (whole, dribbled in pieces, announced longer than sent then half-closed, with trailing junk): well-formed queries with arbitrary header bits, 0..3 questions, known/special/unknown types and classes; single-byte mutations and truncations of them; the C03 adversarial constructions (incl. the 8180-hop pointer chains over TCP); runts of 0..11 octets. Every message has its own ID; a sentinel query closes the batch. Oracle per message, with the reference decoder as the only reader of replies: no reply iff QR=1 or fewer than 2 octets (unparseable input with the QR bit set: either); otherwise exactly one reply, same ID, QR=1; FORMERR iff the reference decoder rejects; NOTIMP iff opcode != 0; REFUSED iff more than one question or an unknown type/class; opcode, RD and questions echoed; RA clear; UDP <= 512 octets and TC iff the full encoding (learnt over TCP) is longer, the cut reply being its prefix; TCP length prefix = octets that follow; answer, authority, AA and RCODE equal those of dns_resolver::resolve run in-process on the same files through the documented mapping (SERVFAIL for an error or empty result); answer records only at the question name or on its alias chain; the server process is alive and answers the sentinel after every batch; no stray replies. Also enumerated: every configured name x 7 types on both transports, and every adversarial construction over TCP. forwarding: a second server forwarding to a scripted loopback forwarder (real sockets, so the real UDP receive path): replies cut short inside a record, TC, garbage, CNAME, NXDOMAIN, (thorough) silence; same framing rules with RA set; every answer record must have been supplied by the forwarder or a zone file and lie on the alias chain; with RD set the forwarder's answer must come back. Non-trivial = a batch with both malformed and well-formed messages over both transports / a forwarding batch with a faulty datagram. Distinct by hash of the batch.",
+        rule: "authoritative-only: one running `resolved --authoritative-only` (shipped binary, guard off) with fixed zone and hosts files (authoritative zone with aliases, alias loop, wildcard records and a wildcard alias asked one and two labels below, empty non-terminals, delegation, RRsets of 1 KB, 12 KB and 75 KB; a non-authoritative zone; hosts entries). A case is a batch of 1..16 messages interleaved over one UDP socket and separate TCP connections (whole, dribbled in pieces, announced longer than sent then half-closed, with trailing junk): well-formed queries with arbitrary header bits, 0..3 questions, known/special/unknown types and classes; single-byte mutations and truncations of them; the C03 adversarial constructions (incl. the 8180-hop pointer chains over TCP); runts of 0..11 octets. Every message has its own ID; a sentinel query closes the batch. Oracle per message, with the reference decoder as the only reader of replies: no reply iff QR=1 or fewer than 2 octets (unparseable input with the QR bit set: either); otherwise exactly one reply, same ID, QR=1; FORMERR iff the reference decoder rejects; NOTIMP iff opcode != 0; REFUSED iff more than one question or an unknown type/class; opcode, RD and questions echoed; RA clear; UDP <= 512 octets and TC iff the full encoding (learnt over TCP) is longer, the cut reply being its prefix; TCP length prefix = octets that follow; answer, authority, AA and RCODE equal those of dns_resolver::resolve run in-process on the same files through the documented mapping (SERVFAIL for an error or empty result); answer records only at the question name or on its alias chain; the server process is alive and answers the sentinel after every batch; no stray replies. Also enumerated: every configured name x 7 types on both transports, and every adversarial construction over TCP. forwarding: a second server forwarding to a scripted loopback forwarder (real sockets, so the real UDP receive path): replies cut short inside a record, TC, garbage, CNAME, NXDOMAIN, (thorough) silence; same framing rules with RA set; every answer record must have been supplied by the forwarder or a zone file and lie on the alias chain; with RD set the forwarder's answer must come back. Non-trivial = a batch with both malformed and well-formed messages over both transports / a forwarding batch with a faulty datagram. Distinct by hash of the batch.",
         assumptions: vec![
             "replies are collected until the sentinel's reply plus a 60 ms grace period; a missing sentinel reply within 20 s is reported as server-unresponsive",
             "unparseable input whose QR bit is set may be answered with FORMERR or not at all",
